@@ -193,7 +193,12 @@ pub fn run_recipe(ctx: &mut Ctx, v: &J, scratch: &str) {
         if let Some(Some(want)) = accept_exp.get(ti) {
             let o = guarded_decode_and_follow(ty, "", "slice", &bytes);
             if o.bad.is_none() && o.accepted != *want {
-                ctx.mismatch(&p, v, if *want { "nested-input-rejected" } else { "nested-input-accepted" }, json!({"entry": ty, "len": bytes.len(), "reps": reps}));
+                if p == "C01" {
+                    // accepted or rejected without crashing: not C01's business (C09 / C13 run the same recipes and judge this)
+                    ctx.other_property("nested-input-acceptance", json!({"entry": ty, "len": bytes.len(), "reps": reps, "want": want}));
+                } else {
+                    ctx.mismatch(&p, v, if *want { "nested-input-rejected" } else { "nested-input-accepted" }, json!({"entry": ty, "len": bytes.len(), "reps": reps}));
+                }
             }
             if o.accepted {
                 ctx.nontrivial.insert(h);
